@@ -426,6 +426,15 @@ class BaseWorld:
                 ex.aborting = True
             raise Spin('waiting for a lock held by a suspended client')
 
+    def refused(self):
+        """a busy hook refused a BEGIN: a caller that retries against a lock that is never released would loop for ever -- cut"""
+        self.refusals = getattr(self, 'refusals', 0) + 1
+        if self.refusals > 60:
+            ex = Ctx.cur
+            if ex is not None:
+                ex.aborting = True
+            raise Spin('retrying against a lock that is never released')
+
     # ---- events / directives
     def start_events(self):
         self.counting = True
